@@ -347,6 +347,35 @@ pub fn generate(s: &mut Session, thorough: bool) -> bool {
             check_event(s, &mut rng, &mut cx, "simulated-multi-track", run, &banks);
         }
     }
+    // (iv-a) several PadWing packets in one event, one of them with zero requested samples (nothing to
+    // store for its pads): the other packets must be stored whatever the order in which the groups
+    // are visited (an early exit from the loop over the chunk groups makes the result depend on the
+    // HashMap order: seed C11-7)
+    for run in [u32::MAX, 11084] {
+        for _ in 0..(if thorough { 10 } else { 2 }) {
+            let mut spec = c10::small_spec(&mut rng, run);
+            let installed = c10::installed_boards(run);
+            if installed.len() < 4 {
+                continue;
+            }
+            spec.pads.clear();
+            let mut used = std::collections::BTreeSet::new();
+            for k in 0..5usize {
+                let board = *rng.pick(&installed);
+                let chip = rng.below(4) as u8;
+                if !used.insert((board, chip)) {
+                    continue;
+                }
+                let req: u16 = if k == 2 { 0 } else { (hooks::pad_delay(run).unwrap_or(100) + 5 + rng.below(20) as usize) as u16 };
+                let sent: Vec<(u16, Vec<i16>)> = (1..=79u16).filter(|i| i % 9 == (k as u16) % 9).map(|i| (i, c10::wave(&mut rng, req as usize))).collect();
+                spec.pads.push(c10::PwbSpec { board, chip, req, sent, chunk_size: 1400 });
+            }
+            let banks = c10::spec_banks(&mut rng, &spec);
+            for _ in 0..6 {
+                check_event(s, &mut rng, &mut cx, "zero-sample-packet", run, &banks);
+            }
+        }
+    }
     // (iv-b) history on one thread: events with one wide block of contiguous wires, a wider one before a
     // narrower one and vice versa. Every event is computed on this (long-lived) thread, on 4 fresh
     // threads and in fresh processes; a solver that keeps anything from an earlier, larger block
